@@ -75,7 +75,7 @@ func wktGen(r *rand.Rand, n int, tier string, emit func(Case)) {
 
 func wktOnPanic(c Case) Event {
 	e := Event{"t": "Point", "ct": "XY", "c": []string{}}
-	return Event{"kind": c.str("kind"), "g": e, "toks": []string{}, "noexp": false, "append": false, "reerr": "", "re": e, "viawkb": e,
+	return Event{"kind": c.str("kind"), "g": e, "toks": []string{}, "noexp": false, "append": false, "reerr": "", "valerr": "", "re": e, "viawkb": e,
 		"text": "", "wanttext": "", "want": "", "wantg": e}
 }
 
@@ -124,6 +124,10 @@ func wktExec(c Case) Event {
 		return ev
 	}
 	ev["re"] = projectTree(rg)
+	// the validating reader (the default): a geometry the specification knows to be valid must come back too
+	if _, verr := geom.UnmarshalWKT(txt); verr != nil {
+		ev["valerr"] = errStr(verr)
+	}
 	wg, err := geom.UnmarshalWKB(g.AsBinary(), geom.NoValidate{})
 	if err != nil {
 		panic(err)
